@@ -92,8 +92,8 @@ MANUAL = [
     ("C13", "inline_const_empty_list", r"text_not_executable:TranslationError:.*", "inline_const=True renders an empty 1-D constant as [], which the converter cannot type"),
     ("C13", "if_with_unused_outputs", r"text_not_executable:TranslationError:.*", "an If node whose outputs are all unused is exported as an `if` assigning dead variables, which the converter refuses"),
     ("C13", "python_constants_need_castlike_before_opset15", r"roundtrip:not_executable:.*", "inline_const=True / skip_initializers=True on a model with opset < 15: the Python constants are typed by the converter with CastLike, which opset 13/14 do not have"),
-    ("C13", "use_operators_body_without_opset_call", r"text_not_executable:RuntimeError:default_opset.*", "use_operators=True on a function or graph made only of operator nodes: the emitted @script() has no default_opset and the decorator raises"),
     ("C13", "function_attribute_default_not_exported", r"text_not_executable:(ValueError:Unbound name|TypeError:Unexpected keyword.*)", "a model-local function with attribute parameters that have defaults (FunctionProto.attribute_proto): the defaults are 'not handled yet', the parameter is dropped from the signature and its uses are unbound"),
+    ("C13", "skip_initializers_same_name_in_two_scopes", r"export_raises:RuntimeError@onnx_export\.py:_translate_graph_body", "skip_initializers=True on a model whose disjoint scopes (sibling If branches) hold initializers of the same name: RuntimeError 'already present in skipped_initializers' for a model inside the supported class"),
     ("C13", "loop_with_condition_break_first", r"text_not_executable:TranslationError:.*", "Loop with a condition input is exported as `for ...: if not cond: break` with the break first, which the converter refuses"),
     ("C15", "optimize_renames_constant_tensor_of_argument", r"argument_mutated:optimize", "optimize(ModelProto) mutates its argument: the TensorProto of Constant 'value' attributes is shared with the IR and renamed"),
     ("C15", "convert_version_proto_drops_metadata", r"lost:(graph|node)\.metadata_props:convert_version", "convert_version(ModelProto) copies only the graph back: graph/node metadata_props are lost"),
@@ -101,7 +101,6 @@ MANUAL = [
      "optimize()/rewrite() inherit the rewrite-rule findings recorded under C05: attributed only when a single rule unit applied alone (or the stepwise replay of the pipeline) reproduces a violation that is itself a recorded C05 finding"),
     ("C03", "bn_training_mode_unused_stats", r"(violation_values|violation_not_executable):.*",
      "BatchNormalization<training_mode=1> whose running-statistics outputs are dead: onnx_ir RemoveUnusedNodesPass (part of optimize/rewrite) drops training_mode, switching to inference statistics"),
-    ("C03", "ir_version_lt4", r"(corpus_not_executable|violation_not_executable):.*", "models with ir_version < 4: new initializers are not added to the graph inputs as that IR version requires"),
     ("C04", "reduces_to_known_rule_finding", r"(invalid|override|raise|signature):.*", "see C03: inherited rewrite-rule findings (validity / override / exceptions)"),
     ("C04", "value_name_defined_in_several_scopes", r"raise:.*:ValueError@_core\.py:(register_initializer|name)", "a value name defined in two disjoint scopes (legal ONNX): after a constant-condition If is inlined, the folder registers a folded initializer under a name that the graph already holds and raises ValueError"),
     ("C04", "bn_training_mode_unused_stats", r"(invalid|override):.*", "see C03: training-mode BatchNormalization after dead-output removal is invalid (3 outputs without training_mode)"),
